@@ -704,3 +704,110 @@ def r18(ctx, R):
         d = sp.simplify(sp.expand(got - want[name]))
         R.check(d == 0, f'imex_1st_order.get_scalar_problems_sweeper_mats :: {name}', w, str(want[name]), f'{name} - expected = {str(d)[:120]}' if d != 0 else 'equal')
     R.check(ret == ['(LHS, RHS)'], 'imex_1st_order.get_scalar_problems_sweeper_mats :: returns (LHS, RHS)', w, 'return LHS, RHS', ret)
+
+
+class _DimUnk(Exception):
+    pass
+
+
+def _dim(n):
+    """physical dimension of an expression of the second-order sweepers as a sympy monomial in X (length) and T (time):
+    dt -> T, *.pos -> X, *.vel -> X/T, right-hand sides (f, L.f[..], get_full_f(..), build_f(..)) -> X/T**2, matrix entries / nodes / weights / numbers -> 1"""
+    import sympy as sp
+    X, T = sp.Symbol('X', positive=True), sp.Symbol('T', positive=True)
+    if isinstance(n, ast.Constant) and isinstance(n.value, (int, float)):
+        return sp.nsimplify(n.value) if n.value != 0 else sp.Integer(0)
+    if isinstance(n, ast.Attribute):
+        if n.attr == 'dt':
+            return T
+        if n.attr == 'pos':
+            return X
+        if n.attr == 'vel':
+            return X / T
+        raise _DimUnk(ast.unparse(n))
+    if isinstance(n, ast.Name):
+        if n.id == 'f':
+            return X / T**2
+        raise _DimUnk(n.id)
+    if isinstance(n, ast.Subscript):
+        base = ast.unparse(n.value)
+        if base in ('L.f',):
+            return X / T**2
+        if base.startswith('self.') and not base.endswith(('.u', '.f')):
+            return sp.Integer(1)  # an entry of a quadrature matrix, a node, a weight, a node distance
+        raise _DimUnk(base)
+    if isinstance(n, ast.Call):
+        f = ast.unparse(n.func)
+        if f.split('.')[-1] in ('get_full_f', 'build_f', 'eval_f'):
+            return X / T**2
+        raise _DimUnk(f)
+    if isinstance(n, ast.UnaryOp) and isinstance(n.op, ast.USub):
+        return -_dim(n.operand)
+    if isinstance(n, ast.BinOp):
+        if isinstance(n.op, ast.Pow):
+            if isinstance(n.right, ast.Constant) and isinstance(n.right.value, int):
+                return _dim(n.left) ** n.right.value
+            raise _DimUnk(ast.unparse(n))
+        a, b = _dim(n.left), _dim(n.right)
+        if isinstance(n.op, ast.Add):
+            return a + b
+        if isinstance(n.op, ast.Sub):
+            return a - b
+        if isinstance(n.op, ast.Mult):
+            return a * b
+        if isinstance(n.op, ast.Div):
+            return a / b
+    raise _DimUnk(ast.unparse(n)[:40])
+
+
+def dimension_defects(stmt):
+    """for `target.pos/.vel (+=|-=|=) expr`: the additive terms of expr whose dimension is not that of the target"""
+    import sympy as sp
+    X, T = sp.Symbol('X', positive=True), sp.Symbol('T', positive=True)
+    tgt = stmt.target if isinstance(stmt, ast.AugAssign) else stmt.targets[0]
+    unit = X if tgt.attr == 'pos' else X / T
+    e = sp.expand(_dim(stmt.value))
+    bad = []
+    for term in sp.Add.make_args(e):
+        if term == 0:
+            continue
+        q = sp.simplify(term / unit)
+        if q.free_symbols:
+            bad.append(str(sp.simplify(term / (term.as_coeff_Mul()[0] if term.as_coeff_Mul()[0] != 0 else 1))))
+    return bad
+
+
+_R19_CONTROL = 'rhs.vel += L.dt ** 2 * self.QI[m + 1, j] * self.get_full_f(f)'
+
+
+@rule('C02', 'C02.R19', 'second-order (position / velocity) forms are dimensionally consistent: in verlet, boris_2nd_order and RungeKuttaNystrom every term accumulated into a `.pos` is dt^2 * matrix * force or dt * matrix * velocity (or a position), every term accumulated into a `.vel` is dt * matrix * force (or a velocity) - dimensional analysis of each statement with dt -> T, pos -> X, vel -> X/T, right-hand sides -> X/T^2, matrix entries dimensionless; a swapped component or a lost / doubled factor dt is a unit error', floor=18)
+def r19(ctx, R):
+    repo = ctx.repo
+    ctl = ast.parse(_R19_CONTROL).body[0]
+    if not dimension_defects(ctl):
+        raise AnalysisError('C02.R19: the embedded control (velocity accumulating dt^2 * force) is not recognised')
+    SW = 'pySDC/implementations/sweeper_classes/'
+    n = 0
+    for rel, cn in ((SW + 'verlet.py', 'verlet'), (SW + 'boris_2nd_order.py', 'boris_2nd_order'), (SW + 'Runge_Kutta_Nystrom.py', 'RungeKuttaNystrom')):
+        ci = repo.cls(rel, cn)
+        for m, fn in ci.methods.items():
+            k = 0
+            for s in ast.walk(fn):
+                tgt = s.target if isinstance(s, ast.AugAssign) else s.targets[0] if isinstance(s, ast.Assign) and len(s.targets) == 1 else None
+                if not (isinstance(tgt, ast.Attribute) and tgt.attr in ('pos', 'vel')):
+                    continue
+                if isinstance(s, ast.AugAssign) and not isinstance(s.op, (ast.Add, ast.Sub)):
+                    continue
+                k += 1
+                w = f'{rel}:{cn}.{m}'
+                c = f'{cn}.{m} :: `{ast.unparse(tgt)}` statement #{k} is dimensionally consistent'
+                try:
+                    bad = dimension_defects(s)
+                except _DimUnk as e:
+                    R.note(c, w, f'not decided: `{e}` has no dimension in the table')
+                    continue
+                R.fn(w)
+                n += 1
+                R.check(not bad, c, w, 'length for .pos, length / time for .vel in every term', {'statement': ast.unparse(s)[:110], 'terms of another dimension': bad})
+    if n < 18:
+        raise AnalysisError(f'C02.R19: only {n} position / velocity statements decided')
